@@ -426,8 +426,9 @@ func checkC02(c *hk.Ctx, s *sys, sc *scenario, wf *wfSpec, prop string) {
 						} else if c.Stats["fault.offer_late"] > 0 {
 							cause = "offer-round-without-a-host-deploys-nothing"
 						}
-					} else if strings.Contains(r.Err, "roles undeployable") && c.Stats["fault.offer_late"] > 0 {
+					} else if strings.Contains(r.Err, "roles undeployable") && c.Stats["fault.offer_late"] > 0 && !fullRound(s, wf) {
 						// the same finding, when every one of the three attempts met such a round
+						// (no offers cycle launched the whole workflow)
 						cause = "offer-round-without-a-host-deploys-nothing"
 					}
 				}
@@ -497,6 +498,20 @@ func checkC02(c *hk.Ctx, s *sys, sc *scenario, wf *wfSpec, prop string) {
 			}
 		}
 	}
+}
+
+// fullRound: did one offers cycle (ACCEPT calls of one instant) launch every task of the workflow?
+func fullRound(s *sys, wf *wfSpec) bool {
+	perInstant := map[time.Duration]int{}
+	for _, cl := range s.mesos.CallsOfType("ACCEPT") {
+		perInstant[cl.At] += len(cl.Tasks)
+	}
+	for _, n := range perInstant {
+		if n >= len(wf.Tasks) {
+			return true
+		}
+	}
+	return false
 }
 
 func describe(wf *wfSpec) string {
